@@ -89,7 +89,7 @@ def fluxes(th, vp, vm, Tp, Tm):
 def branch_of(h, vw, vm, Tm):
     if vw > h.vJ:
         return "detonation"
-    cs = math.sqrt(float(h.thermodynamics.csqLowT(Tm)))
+    cs = math.sqrt(max(float(h.thermodynamics.csqLowT(Tm)), 0.0))      # (a returned T- so low that cs-^2 < 0 is judged by the callers)
     return "deflagration" if vw <= cs else "hybrid"
 
 
